@@ -107,7 +107,11 @@ func (m *termMonitor) termOnPPIDChange(ppid int) {
 func newTermMonitor() *termMonitor {
 	ppid := os.Getppid()
 	m := new(termMonitor)
-	m.sigChan = make(chan os.Signal)
+	// The signal package never blocks when it delivers a signal, so a signal
+	// that arrives while nothing is receiving from an unbuffered channel (eg:
+	// while the pt configuration is still in progress) would be lost.  Two
+	// slots are enough, any second signal terminates the process.
+	m.sigChan = make(chan os.Signal, 2)
 	m.handlerChan = make(chan int)
 	signal.Notify(m.sigChan, syscall.SIGINT, syscall.SIGTERM)
 
